@@ -20,7 +20,7 @@ type synGen struct {
 
 var synAccts = []string{"a", "b", "world", "users:001", "a-b_c", "Bank:fees:2024", "x"}
 var synAssets = []string{"USD", "EUR/2", "COIN", "BTC/8", "X"}
-var synStrs = []string{"k", "hello world", "é", `q\"uote`, "", "a/b:c", "çñ", `say \"hi\"`, `\"`, `tab\there`}
+var synStrs = []string{"k", "hello world", "^", `q\"uote`, "", "a/b:c", "^^", `say \"hi\"`, `\"`, `tab\there`}
 var synPortions = []string{"1/2", "1 / 3", "2/ 3", "1 /4", "50%", "12.5%", "100%", "0%", "3/4", "99.99%", "1/1", "10/20", "08/10", "007/010", "09%", "0.090%", "1/09"}
 var synTypes = []string{"account", "asset", "number", "monetary", "portion", "string"}
 var synVarNames = []string{"a", "my_var", "x2", "amount_1", "p", "s", "acc", "m"}
@@ -208,11 +208,11 @@ func cmdSynTrees(args []string) {
 	lw := newLineWriter(args[3])
 	// a few fixed showcase trees first (non-ASCII strings at the end of a call, unbounded sources in a list, origins), then random ones
 	fixed := []J{
-		{"id": 0, "emptyvars": false, "vars": []any{}, "stmts": []any{J{"k": "call", "name": "set_tx_meta", "args": jl(eStr("clé"), eStr("é"))}}},
+		{"id": 0, "emptyvars": false, "vars": []any{}, "stmts": []any{J{"k": "call", "name": "set_tx_meta", "args": jl(eStr("cl^"), eStr("^"))}}},
 		{"id": 1, "emptyvars": false, "vars": []any{J{"type": "monetary", "name": "m", "origin": J{"k": "call", "name": "balance", "args": jl(eAcct("a"), eAsset("USD"))}}, J{"type": "account", "name": "acc", "origin": J{"k": "none"}}},
 			"stmts": []any{J{"k": "send", "all": false, "sent": eVar("m"), "src": J{"k": "seq", "s": []any{J{"k": "acct", "e": eAcct("world")}, J{"k": "ovdu", "e": eVar("acc")}, J{"k": "ovd", "e": eAcct("b"), "b": eMon(eAsset("USD"), eNum(5))}}},
 				"dst": J{"k": "ord", "cl": []any{J{"c": eVar("m"), "to": J{"k": "kept"}}}, "rem": J{"k": "acct", "e": eVar("acc")}}}}},
-		{"id": 2, "emptyvars": false, "vars": []any{}, "stmts": []any{J{"k": "call", "name": "set_account_meta", "args": jl(eAcct("a"), eStr("clé"), eStr("éé"))}, J{"k": "save", "all": true, "sent": eAsset("USD"), "e": eAcct("a")}}},
+		{"id": 2, "emptyvars": false, "vars": []any{}, "stmts": []any{J{"k": "call", "name": "set_account_meta", "args": jl(eAcct("a"), eStr("cl^"), eStr("^^"))}, J{"k": "save", "all": true, "sent": eAsset("USD"), "e": eAcct("a")}}},
 	}
 	for i := 0; i < n; i++ {
 		if i < len(fixed) && n > len(fixed) {
@@ -225,18 +225,18 @@ func cmdSynTrees(args []string) {
 	printJSON(J{"trees": n})
 }
 
-// widen replaces the Latin-1 placeholder é by a wider character of the same length in code points
-// (variant 0: unchanged, 1: Cyrillic, 2: CJK, 3: outside the Basic Multilingual Plane)
+// widen replaces the ASCII placeholder ^ (texts inside TLC are ASCII only) by a wider character of the same length
+// in code points (variant 0: Latin-1, 1: Cyrillic, 2: CJK, 3: outside the Basic Multilingual Plane)
 func widen(s string, variant int) string {
 	switch variant % 4 {
 	case 1:
-		return strings.ReplaceAll(s, "é", "к")
+		return strings.ReplaceAll(s, "^", "к")
 	case 2:
-		return strings.ReplaceAll(s, "é", "漢")
+		return strings.ReplaceAll(s, "^", "漢")
 	case 3:
-		return strings.ReplaceAll(s, "é", "😀")
+		return strings.ReplaceAll(s, "^", "😀")
 	}
-	return s
+	return strings.ReplaceAll(s, "^", "é")
 }
 
 type synGenLine struct {
